@@ -330,7 +330,7 @@ func runC06(r *rep.Report, thorough bool) error {
 					set := func(l []string) string {
 						m := map[string]bool{}
 						for _, t := range l {
-							m[strings.Join(jsTokens(t), " ")] = true
+							m[strings.Join(dartTokens(t), " ")] = true
 						}
 						var ks []string
 						for k := range m {
@@ -368,4 +368,24 @@ func runC06(r *rep.Report, thorough bool) error {
 		}
 	}
 	return nil
+}
+
+// dartTokens: the tokens of a Dart declaration, comments dropped, and the operand of every `throw`
+// replaced by one placeholder: the wording of a diagnostic is no part of what C06 states.
+func dartTokens(s string) []string {
+	var out []string
+	toks := jsTokensKeepSemi(s)
+	for i := 0; i < len(toks); i++ {
+		if toks[i] == ";" {
+			continue
+		}
+		out = append(out, toks[i])
+		if toks[i] == "throw" {
+			for i+1 < len(toks) && toks[i+1] != ";" {
+				i++
+			}
+			out = append(out, "<diagnostic>")
+		}
+	}
+	return out
 }
